@@ -72,6 +72,13 @@ def _eos_wraps_onto_token(case):
     return False
 
 
+def k9_signature(entry, rec):
+    """known finding K9 (known_findings.d/C01.json): exactly the inputs whose eos does not fit a token tensor's dtype
+    while that tensor holds a token congruent to it - nothing else is suppressed"""
+    case = rec.get("case") or {}
+    return bool(entry.get("id") == "K9" and case.get("dtypes") and _eos_wraps_onto_token(case))
+
+
 # ---- robustness dimensions: memory layout, entry point, call history, aliasing ---------------------
 LAYOUTS = ("contig", "t", "offset", "step", "expand")
 
@@ -406,8 +413,8 @@ def in_space(case):
             return False
         if any(not _fits(t, dt) for which, dt in zip(("ref", "hyp"), dts) for s_ in case[which] for t in s_):
             return False  # a tensor only holds ids of its dtype
-        if _eos_wraps_onto_token(case):
-            return False  # reported defect of the unchanged code, kept as corpus/C01/*.json.pending
+        if _eos_wraps_onto_token(case) and not case.get("k9"):
+            return False  # known finding K9 of the unchanged code: only the two corpus cases marked k9 exercise it
     lay = case.get("layout") or ("contig", "contig")
     for which, l in zip(("ref", "hyp"), lay):
         if l == "expand" and (any(x != case[which][0] for x in case[which]) or case.get("history")):
@@ -1239,6 +1246,14 @@ def run(chk, cases=None):
     pool.shutdown()
     bad = [i for i, ok in enumerate(res) if not ok]
     chk.extra["model_disagreements"] = len(bad)
+    # known finding K9: the corpus cases marked k9 are judged here, each on its own, against the signature of the
+    # known-findings file; they take no part in the shrinking / metamorphic / source-tie steps below (the interpreted source
+    # has unbounded integers and does not show the wrap)
+    for i in [i for i in bad if cases[i].get("k9")]:
+        rec, spec_ok = judge(chk, cases[i], outs[i])
+        if not spec_ok and chk.report(rec, k9_signature) == "known":
+            bad.remove(i)
+    meta_fail = [m for m in meta_fail if not cases[m[0]].get("k9")]
 
     found_concrete = False
     for i in [i for i in bad if cases[i].get("long")][:2]:
@@ -1263,8 +1278,8 @@ def run(chk, cases=None):
         else:
             rec, spec_ok = judge(chk, case, out)
         if not spec_ok:
-            found_concrete = True
-            chk.report(rec)
+            if chk.report(rec, k9_signature) != "known":
+                found_concrete = True
     if bad_small and not found_concrete:
         small = [i for i in bad_small if max(_dims(cases[i])[1:]) <= 40]
         sres = coq_eval_bools(chk.workdir, IMPORTS, [spec_term(cases[i], outs[i]) for i in small], tag="specall")
@@ -1281,7 +1296,8 @@ def run(chk, cases=None):
     if bad and not found_concrete:
         rec, _ = judge(chk, cases[bad[0]], outs[bad[0]])
         chk.report(rec, no_failing_input=True)
-    source_tie(chk, cases, outs)
+    keep = [i for i in range(len(cases)) if not cases[i].get("k9")]
+    source_tie(chk, [cases[i] for i in keep], [outs[i] for i in keep])
 
 
 # ------------------------------------------------------------------------------------------
